@@ -46,13 +46,23 @@ def render_marks(ast):
 
 MISPLACED = {"charset-late": '@charset "utf-8";', "import-late": '@import "late.css";', "namespace-late": '@namespace q "v";',
              "namespace-redeclare-late": '@namespace p "v2";', "namespace-default-late": '@namespace "dd";',
-             "margin-outside-page": "@top-left { left: 0 }"}
+             "margin-outside-page": "@top-left { left: 0 }",
+             "import-with-block": '@import "late.css" { e { f: g; h: i } }', "namespace-with-block": '@namespace q "v" { e { f: g; h: i } }'}
 IN_MEDIA = {"import-in-media": '@import "m.css";', "charset-in-media": '@charset "utf-8";', "fontface-in-media": "@font-face { font-family: y }"}
+
+
+def strip_body(body):
+    """without the unknown at-rules the adapter injected into a declaration block (keyword @kw)"""
+    return [d for d in body if not (d["k"].startswith("?") and d.get("text", "").lstrip().startswith("@kw"))]
 
 
 def strip_injected(dom):
     out = []
     for r in dom:
+        if "body" in r:
+            r = dict(r, body=strip_body(r["body"]))
+        if r["k"] == "page":
+            r = dict(r, margins=[dict(m, body=strip_body(m["body"])) if "body" in m else m for m in r["margins"]])
         if r["k"] == "unknown" and (r["text"].startswith("@kw") or r["text"].startswith("@garbage")):
             continue
         # the misplaced at-rule itself may or may not be kept
@@ -65,11 +75,53 @@ def strip_injected(dom):
     return out
 
 
+def boundaries(text):
+    """offsets in the rendered base at which a declaration may start: after the '{' of a declaration block, after every ';'
+    inside one, and before its '}' (blocks of @media hold rules, not declarations)"""
+    out, stack, start = [], [], 0
+    for i, ch in enumerate(text):
+        if ch == "{":
+            decl = not text[start:i].lstrip().startswith("@media")
+            stack.append(decl)
+            start = i + 1
+            if decl:
+                out.append(i + 1)
+        elif ch == ";":
+            start = i + 1
+            if stack and stack[-1]:
+                out.append(i + 1)
+        elif ch == "}":
+            if stack and stack[-1] and text[:i].rstrip()[-1:] not in "{;}":
+                out.append(i)           # after a last declaration that has no ';' yet
+            if stack:
+                stack.pop()
+            start = i + 1
+    return out
+
+
 def damaged_text(r):
     ast = r["ast"]
     text, marks = render_marks(ast)
     g = gtext(r["g"])
     w = r["what"]
+    if w == "at-in-block":
+        bs = boundaries(text)
+        if r["at"] >= len(bs):
+            return None
+        pos = bs[r["at"]]
+        rule = {"statement": "@kw %s;" % g, "block": "@kw %s { zz: 1; yy }" % g, "block-rule": "@kw %s { b { top: 9px } }" % g}[r["form"]]
+        if r["form"] == "statement" and r["sep"] == "semicolon":
+            return None                                     # ';;' - an empty declaration is a different subject
+        sep = {"glued": "", "space": " ", "semicolon": ";"}[r["sep"]]
+        pre = "; " if text[:pos].rstrip()[-1:] not in "{;}" else " "
+        rest = text[pos:].lstrip(" ") if r["sep"] == "glued" else text[pos:]      # glued: the next declaration follows the '}' directly
+        return text[:pos] + pre + rule + sep + rest
+    if w == "import-nosemi-last-in-media":
+        med = [i for i, x in enumerate(ast) if x["k"] == "media"]
+        if not med:
+            return None
+        p = marks[med[0]]["end"] - 1        # the '}' that closes the @media rule also ends the statement
+        return text[:p] + ' @import "m.css" ' + text[p:]
     if w == "declaration":
         # at a declaration boundary of rule r["rule"] (1-based), before declaration number r["at"] (0-based), followed by ';'
         i = r["rule"] - 1
